@@ -480,8 +480,8 @@ def c19(tier, seed):
                             pick=pick_cfgs(NR, 1 if q else 8, seed + vi), variant=v)
         units += cfg_shards("codes-" + tag, "codes", 15, seed + vi, dict(mode="alone", full=0),
                             pick=pick_cfgs(15, 1 if q else 6, seed + vi), variant=v)
-        units += cfg_shards("iow-" + tag, "wstates", NW, seed + vi, dict(paths=WP, ops="c12", full=0),
-                            pick=pick_cfgs(NW, 2 if q else 8, seed + vi), variant=v)
+        # byte writes are cheap: every writer configuration in every variant
+        units += cfg_shards("iow-" + tag, "wstates", NW, seed + vi, dict(paths=WP, ops="c12", full=0), variant=v)
         units += edge_units(tier, seed + vi, variant=v, n=3)
     return dict(
         needs_gen=True,
